@@ -157,6 +157,10 @@ OPS = [
     O('int.checked_div_rem_floor', ['u', 'nz'], wq=[2, 4], heavy=4), O('int.div_rem_uint', ['u', 'nz'], wq=[2, 4], heavy=4),
     O('int.shr', ['u', 'sh']), O('int.shl', ['u', 'sh']), O('int.shr_vartime', 'u', ['shift'], kind='vt'),
     # ---- BoxedUint
+    # mixed precision: the right operand has twice the limb count (public); both VALUES are secret (seed C01-m5: a short-circuit
+    # over the excess limbs of the wider operand)
+    O('boxed.ct_eq_mixed', ['u', 'uw'], wq=[1, 2, 4]), O('boxed.ct_lt_mixed', ['u', 'uw'], wq=[1, 2, 4]), O('boxed.cmp_mixed', ['u', 'uw'], wq=[1, 2]),
+    O('boxed.wrapping_add_mixed', ['u', 'uw'], wq=[1, 2, 4]), O('boxed.wrapping_sub_mixed', ['u', 'uw'], wq=[1, 2]), O('boxed.bitand_mixed', ['u', 'uw'], wq=[1, 2]),
     O('boxed.ct_eq', 'uu', wq=[1, 2, 4, 8]), O('boxed.ct_lt', 'uu'), O('boxed.ct_gt', 'uu'), O('boxed.cmp', 'uu'),
     O('boxed.cmp_vartime', 'uu', wq=[4], kind='control'), O('boxed.is_zero', 'u'),
     O('boxed.ct_select', ['u', 'u', 'bit'], lean='boxed_select_ni'), O('boxed.ct_assign', ['u', 'u', 'bit'], lean='boxed_assign_ni'),
@@ -184,7 +188,7 @@ OPS = [
     O('bmonty.invert', ['ltm', '-', 'pmod'], wq=[1, 2, 4], heavy=16),
 ]
 OPS_BY_NAME = {o['name']: o for o in OPS}
-SECRET_KINDS = {'u', 'nz', 'l', 'nzl', 'bit', 'sh', 'sha', 'k', 'ltm', 'ltc', 'mod', 'omod'}
+SECRET_KINDS = {'u', 'uw', 'nz', 'l', 'nzl', 'bit', 'sh', 'sha', 'k', 'ltm', 'ltc', 'mod', 'omod'}
 PUBLIC_KINDS = {'pmod', 'pdiv', 'pu'}
 
 
@@ -198,6 +202,8 @@ def binop(name):
 # =========================================================================================
 
 def specials(kind, w, mod=None):
+    if kind == 'uw':          # an operand of TWICE the limb count (mixed-precision boxed forms)
+        return specials('u', 2 * w)
     bits = 64 * w
     mx = (1 << bits) - 1
     if kind in ('u', 'nz', 'pu', 'pdiv'):
@@ -231,6 +237,8 @@ def specials(kind, w, mod=None):
 
 
 def rnd(kind, w, rng, mod=None):
+    if kind == 'uw':
+        return rnd('u', 2 * w, rng)
     bits = 64 * w
     if kind in ('u', 'pu'):
         return rng.getrandbits(bits) >> rng.choice([0, 0, 0, rng.randrange(bits)])
